@@ -72,6 +72,8 @@ def decompose_request(case):
         r["level_given"] = f2bits(case["level_given"])
     if case.get("plain"):
         r["plain"] = True
+    if case.get("colnames") and len(case["colnames"]) == len(case["cols"]):
+        r["colnames"] = case["colnames"]
     return r
 
 
@@ -125,9 +127,9 @@ def compare_rows(case, io, mo, tol=1e-9):
     if len(io["rows"]) != len(mo["rows"]):
         return "number of rows differs"
     if len(case["cols"]) > 1:
-        want = case.get("colnames") or [str(k) for k in range(len(case["cols"]))]
+        want = mo.get("names") or case.get("colnames") or [str(k) for k in range(len(case["cols"]))]
         if io.get("models") != want:
-            return f"model labels {io.get('models')} vs columns {want}"
+            return f"model labels {io.get('models')} vs the labels of the columns in column order {want}"
     for k, (ra, rb) in enumerate(zip(io["rows"], mo["rows"])):
         for nm, a, b in zip(names, ra, rb):
             b = bits2f(b)
